@@ -42,6 +42,13 @@ SEED_DOCS = [
     ("seed:utf8-quoted-names", 'groups:\n- name: g\n  rules:\n  - alert: "my alert"\n    expr: \'{"my.metric", "a b"="c"} > 0\'\n    labels:\n      "a.b": c\n'),
     ("seed:anchors", 'groups:\n- name: g\n  rules:\n  - &r\n    alert: A\n    expr: up == 0\n    labels: &l\n      team: a\n  - <<: *r\n    alert: B\n    annotations: *l\n'),
     ("seed:group-labels-only", 'groups:\n- name: g\n  labels:\n    team: a\n  rules:\n  - record: foo\n    expr: up\n  - alert: A\n    expr: up == 0\n'),
+    ("seed:escaped-newlines-on-last-line", '- record: foo\n  expr: "up\\n\\n"'),
+    ("seed:escaped-newlines-on-last-line-nl", 'groups:\n- name: g\n  rules:\n  - alert: A\n    expr: up == 0\n    annotations:\n      summary: "a\\n\\nb\\n"\n'),
+    ("seed:merge-after-own-keys", 'groups:\n- name: g\n  rules:\n  - &defaults\n    alert: A\n    expr: up == 0\n    for: 5m\n    labels:\n      team: a\n  - alert: B\n    expr: up == 1\n    <<: *defaults\n'),
+    ("seed:merge-after-own-keys-relaxed", 'defaults: &defaults\n  for: 5m\n  labels:\n    team: a\n\nrules:\n- alert: B\n  expr: up == 1\n  <<: *defaults\n'),
+    ("seed:block-scalar-short-blank-lines", 'groups:\n- name: g\n  rules:\n  - alert: A\n    expr: |\n      up\n \n      == 0\n    annotations:\n      summary: |\n        line one\n  \n        line two\n\n'),
+    ("seed:values-file-trailing-quoted-scalar", '# values file\nrules:\n- alert: TargetDown\n  expr: up\ndescription: "line one\\nline two\\nline three"\n'),
+    ("seed:configmap-yaml-in-yaml", 'kind: ConfigMap\ndata:\n  rules.yml: |\n    groups:\n    - name: g\n      rules:\n      - alert: A\n        expr: up == 0\n        for: 1x\n  other: "a\\n\\nb"'),
     ("seed:block-scalars", 'groups:\n- name: g\n  rules:\n  - alert: A\n    expr: |\n      up\n        == 0\n    annotations:\n      summary: >-\n        {{ $labels.job }}\n        is down\n'),
 ]
 
